@@ -81,9 +81,9 @@ PH(p) == FoldSet(LAMBDA u, acc : acc + (IF p[u] = "-" THEN 0 ELSE IF p[u] = "f" 
 Hash(x) == (x.n * 7 + (IF x.vp = "pos" THEN 1 ELSE IF x.vp = "mixed" THEN 2 ELSE 3) * 11 + x.lb * 13
             + FoldSet(LAMBDA u, acc : acc + (IF x.p1[u] = "-" THEN 0 ELSE IF x.p1[u] = "f" THEN u + 1 ELSE 5 * (u + 1)), 0, 0..(Period - 1)) * 17
             + PH(x.p2) * 19)
-H(x) == Hash(x) \div Mod
-ShapeOf(x) == Shapes[(H(x) % Len(Shapes)) + 1]
-MathOf(x) == Maths[((H(x) \div 5) % Len(Maths)) + 1]
+HS(x) == Hash(x) + (Seed % 997) * 131
+ShapeOf(x) == Shapes[Pick(HS(x), 1, Len(Shapes)) + 1]
+MathOf(x) == Maths[Pick(HS(x), 2, Len(Maths)) + 1]
 
 PlanOf(x) ==
   LET sh == ShapeOf(x) fn == MathOf(x) IN
@@ -153,5 +153,5 @@ FuncLaw ==
        /\ (Len(v.vec) = 1 => s.vec[1].val = v.vec[1].val)
   /\ \A i \in 1..Len(gr) : Eval(sc2, 1, gr[i]).vec = Eval(sc2, 1, gr[1]).vec
 
-EmitFn == IF Hash(g) % Mod = Seed % Mod THEN Emit(ScnOf(g)) ELSE TRUE
+EmitFn == IF Pick(Hash(g), 0, Mod) = Seed % Mod THEN Emit(ScnOf(g)) ELSE TRUE
 =============================================================================
